@@ -56,7 +56,7 @@ Fixpoint rd_em (ps : rdata) (origin : option name) (compress : bool) : emitter :
         do e1 <- nm_em n origin compress pos t;
         do e2 <- rd_em r origin compress (pos + zlen (fst e1)) (snd e1);
         Ok (fst e1 ++ fst e2, snd e2)
-    | PU n :: r =>
+    | PU n :: r | PX n :: r =>
         do e1 <- nm_em n origin false pos t;
         do e2 <- rd_em r origin compress (pos + zlen (fst e1)) (snd e1);
         Ok (fst e1 ++ fst e2, snd e2)
@@ -66,12 +66,17 @@ Lemma rd_to_wire_em : forall ps o c file t, rd_to_wire ps o c file t = run_em (r
 Proof.
   induction ps as [|p r IH]; intros o c file t.
   - unfold run_em. cbn. rewrite app_nil_r. reflexivity.
-  - destruct p as [b|n|n]; cbn [rd_to_wire rd_em].
+  - destruct p as [b|n|n|n]; cbn [rd_to_wire rd_em].
     + rewrite IH. unfold run_em. rewrite zlen_app'.
       destruct (rd_em r o c (zlen file + zlen b) t) as [[em t']| |]; cbn [bind fst snd]; try reflexivity.
       rewrite <- app_assoc. reflexivity.
     + rewrite name_to_wire_em. unfold run_em at 1 2.
       destruct (nm_em n o c (zlen file) t) as [[e1 t1]| |]; cbn [bind fst snd]; try reflexivity.
+      rewrite IH. unfold run_em. rewrite zlen_app'.
+      destruct (rd_em r o c (zlen file + zlen e1) t1) as [[e2 t2]| |]; cbn [bind fst snd]; try reflexivity.
+      rewrite <- app_assoc. reflexivity.
+    + rewrite name_to_wire_em. unfold run_em at 1 2.
+      destruct (nm_em n o false (zlen file) t) as [[e1 t1]| |]; cbn [bind fst snd]; try reflexivity.
       rewrite IH. unfold run_em. rewrite zlen_app'.
       destruct (rd_em r o c (zlen file + zlen e1) t1) as [[e2 t2]| |]; cbn [bind fst snd]; try reflexivity.
       rewrite <- app_assoc. reflexivity.
@@ -242,13 +247,17 @@ Lemma ext_rd_em : forall ps o c, ext_em (rd_em ps o c).
 Proof.
   induction ps as [|p r IH]; intros o c pos t em t' H.
   - inversion H; subst. exists []. rewrite app_nil_r. auto.
-  - destruct p as [b|n|n]; cbn [rd_em] in H.
+  - destruct p as [b|n|n|n]; cbn [rd_em] in H.
     + apply bind_ok in H. destruct H as ([e2 t2] & H2 & H). inversion H; subst. cbn [fst snd].
       destruct (IH o c _ _ _ _ H2) as (new & -> & F). exists new. split; [reflexivity|].
       rewrite zlen_app'. eapply Forall_widen; [| |exact F]; [pose proof (zlen_nn b); lia|lia].
     + apply bind_ok in H. destruct H as ([e1 t1] & H1 & H). apply bind_ok in H. destruct H as ([e2 t2] & H2 & H).
       inversion H; subst. cbn [fst snd] in *. rewrite zlen_app'.
       destruct (ext_seq _ _ _ _ _ _ _ _ (ext_nm_em n o c) (IH o c) H1 H2) as (new & -> & F).
+      exists new. split; [reflexivity|]. eapply Forall_widen; [| |exact F]; lia.
+    + apply bind_ok in H. destruct H as ([e1 t1] & H1 & H). apply bind_ok in H. destruct H as ([e2 t2] & H2 & H).
+      inversion H; subst. cbn [fst snd] in *. rewrite zlen_app'.
+      destruct (ext_seq _ _ _ _ _ _ _ _ (ext_nm_em n o false) (IH o c) H1 H2) as (new & -> & F).
       exists new. split; [reflexivity|]. eapply Forall_widen; [| |exact F]; lia.
     + apply bind_ok in H. destruct H as ([e1 t1] & H1 & H). apply bind_ok in H. destruct H as ([e2 t2] & H2 & H).
       inversion H; subst. cbn [fst snd] in *. rewrite zlen_app'.
